@@ -400,7 +400,12 @@ const SCRIPTS: &[&str] = &[
     "alert(1)", "", "var s = \"<p>\";", "if (a<b) { x(); }", "<!-- document.write(\"<script>x</script>\") -->", "<!--<script></script>-->", "var e = '</div>';", "x = '<\\/script>';",
     "<!-- a -->", "</scrip", "</script x", "\u{e9}", "<p></p>", "<!--", "<!-- <script> ", "a</b>c",
 ];
-const RAWS: &[&str] = &["script", "style", "title", "textarea", "xmp", "iframe", "noscript", "noembed", "noframes"];
+const RAWS: &[&str] = &["script", "style", "title", "textarea", "xmp", "iframe", "noscript", "noembed", "noframes", "plaintext"];
+/// the five HTML white-space bytes, in runs that may precede the `>` of a start or end tag
+const WS_RUNS: &[&str] = &[" ", "\t", "\n", "\x0c", "\r", "  ", " \n", "\r\n", "\t \x0c", "\n\n\t"];
+/// raw-text content that looks like markup: `<`, `</`, partial end tags, comment openers, nested-looking elements
+const RAWCONTENT: &[&str] = &["<", "</", "</x", "</x>", "a<b", "1</2", "<!--", "<!-- x", "<p>", "<p></p>", "</titl", "</scrip", "</styl", "</textare", "<title>", "<script>", "<textarea>x", "\u{e9}<", "<\u{1f600}", "x</ y"];
+
 const TRICKY: &[&str] = &[
     "<", "</", "<a", "<a ", "<a b", "<a b=", "<a b=\"", "<a b='x", "</a", "</a ", "<!", "<!-", "<!--", "<!-- x", "<!-- x -", "<!-- x --", "<!D", "<!DOCTYPE", "<!DOCTYPE h", "<![", "<![CDATA[", "<![CDATA[x]",
     "<![CDATA[x]]", "<?", "<? x", "<script>", "<script>a", "<script><!--", "<script><!--<script>", "<script><!--<script></script>", "<textarea>", "<textarea><p>", "<title>", "<title></titl",
@@ -458,8 +463,9 @@ impl<'a> Gen<'a> {
         self.out.push('<');
         self.out.push_str(&nm);
         self.attrs();
-        if self.rng.chance(1, 14) {
-            self.out.push(' ');
+        if self.rng.chance(1, 8) {
+            let w = *self.rng.pick(WS_RUNS);
+            self.out.push_str(w);
         }
         self.out.push('>');
     }
@@ -473,10 +479,21 @@ impl<'a> Gen<'a> {
                 self.out.push_str(&n.to_uppercase());
                 self.out.push('>');
             }
-            2 => {
+            2 | 3 | 4 => {
+                // white space before '>' (all five HTML white-space bytes), any letter case
+                let nm = self.case_name(n);
+                let w = *self.rng.pick(WS_RUNS);
                 self.out.push_str("</");
-                self.out.push_str(n);
-                self.out.push_str(" >");
+                self.out.push_str(&nm);
+                self.out.push_str(w);
+                self.out.push('>');
+            }
+            5 => {
+                // mixed case
+                let nm: String = n.chars().enumerate().map(|(i, c)| if i % 2 == 1 { c.to_ascii_uppercase() } else { c }).collect();
+                self.out.push_str("</");
+                self.out.push_str(&nm);
+                self.out.push('>');
             }
             _ => {
                 self.out.push_str("</");
@@ -528,7 +545,7 @@ impl<'a> Gen<'a> {
             self.start_tag(n);
             let k = self.rng.below(3);
             for _ in 0..k {
-                let s = *self.rng.pick(SCRIPTS);
+                let s = if self.rng.chance(1, 2) { *self.rng.pick(SCRIPTS) } else { *self.rng.pick(RAWCONTENT) };
                 self.out.push_str(s);
             }
             self.end_tag(n);
@@ -751,6 +768,15 @@ pub const PATHS: &[&[&str]] = &[
     &["nope"],
     &["HTML", "body"],
     &["html", "body", "div", "p", "span"],
+    &["title"],
+    &["style"],
+    &["html", "head", "style"],
+    &["html", "body", "textarea"],
+    &["html", "body", "script"],
+    &["html", "body", "div", "textarea"],
+    &["xmp"],
+    &["noscript"],
+    &["iframe"],
 ];
 
 /// selector kinds whose outcome does not depend on scraper's parsing of the fragment
@@ -1553,6 +1579,57 @@ pub fn sibling_cases(count: usize) -> Vec<BCase> {
 // ------------------------------------------------------------------------------------------------
 // diff-directed hints (VERIF_HINTS): sizes and strings mentioned by a changed source line
 // ------------------------------------------------------------------------------------------------
+
+/// RAW-TEXT / WHITE-SPACE family (every run): for each of the ten raw-text element kinds, content that contains `<`, `</`,
+/// partial end tags, comment openers and nested-looking elements (so the held-text loop of `filter` runs in a non-empty
+/// tokenizer context) x end tags with white-space runs before `>` (all five HTML white-space bytes) and upper / mixed
+/// case names x start tags with white space before `>`, with the filter's target ON the raw-text element, on its parent
+/// and on a sibling; EVERY single cut, one byte at a time, strides 2 and 3.
+pub fn rawtext_cases() -> Vec<BCase> {
+    let mut v = Vec::new();
+    let mut n = 0usize;
+    for kind in RAW_TEXT {
+        let upper = kind.to_uppercase();
+        let mixed: String = kind.chars().enumerate().map(|(i, c)| if i % 2 == 0 { c.to_ascii_uppercase() } else { c }).collect();
+        let partial = format!("</{}", &kind[..kind.len() - 1]);
+        let nested = format!("<{kind}>in</{}", &kind[..kind.len() - 1]);
+        let contents: Vec<String> = vec!["x<y".into(), "a</b".into(), "</x".into(), partial, "<!--".into(), nested, "<".into(), "\u{e9}<\u{1f600}".into(), "<p>$</p>".into()];
+        let ends: Vec<String> = vec![
+            format!("</{kind}>"),
+            format!("</{kind} >"),
+            format!("</{kind}\n>"),
+            format!("</{upper}\t>"),
+            format!("</{kind}\x0c\r>"),
+            format!("</{mixed}  \n>"),
+            format!("</{upper}>"),
+        ];
+        let starts: Vec<String> = vec![format!("<{kind}>"), format!("<{kind} a=b\n>"), format!("<{upper}\t>")];
+        for (ci, c) in contents.iter().enumerate() {
+            for (ei, e) in ends.iter().enumerate() {
+                let st = &starts[(ci + ei) % starts.len()];
+                let body = format!("<html><body><div>{st}{c}{e}<b>u</b></div><p>t</p></body></html>");
+                let on = ["html", "body", "div", kind];
+                let fl: Vec<FSpec> = match n % 7 {
+                    0 => vec![hf("replace", &on, None, "\u{a7}R\u{a7}")],
+                    1 => vec![hf("append_child", &on, None, "<ins>\u{a7}A</ins>")],
+                    2 => vec![hf("prepend_child", &on, Some("rio-never"), "\u{a7}P\u{a7}")],
+                    3 => vec![hf("replace", &["html", "body", "div"], Some("*"), "\u{a7}D\u{a7}")],
+                    4 => vec![hf("prepend_child", &["html", "body", "p"], None, "\u{a7}S\u{a7}"), hf("append_child", &["html", "body", "div", "b"], None, "\u{a7}B\u{a7}")],
+                    5 => vec![hf("replace", &[kind], Some(""), "\u{a7}K\u{a7}"), hf("append_child", &["html", "body", "div"], None, "\u{a7}2\u{a7}")],
+                    _ => vec![hf("append_child", &["html", "body"], Some("rio-never"), "\u{a7}Y\u{a7}"), FSpec::Text { action: "append_text".to_string(), content: "\u{a7}T".to_string() }],
+                };
+                n += 1;
+                let len = body.len();
+                let mut scheds: Vec<Vec<usize>> = (1..len).map(|p| vec![p]).collect();
+                scheds.push((1..len).collect());
+                scheds.push((1..=(len - 1) / 2).map(|j| j * 2).collect());
+                scheds.push((1..=(len - 1) / 3).map(|j| j * 3).collect());
+                v.push(BCase { body: body.into_bytes(), filters: fl, scheds, shape: format!("rawtext-ws:{kind}") });
+            }
+        }
+    }
+    v
+}
 
 fn swapcase(s: &str) -> String {
     s.chars().map(|c| if c.is_ascii_uppercase() { c.to_ascii_lowercase() } else { c.to_ascii_uppercase() }).collect()
